@@ -11,11 +11,13 @@ class HarnessBug(Exception):
     pass
 
 
-def run_mux(program, events, end='complete', monitor=True, fail=None, notaps=False, items=None):
+def run_mux(program, events, end='complete', monitor=True, fail=None, notaps=False, items=None, extra=None):
     """Subject -> with_memory_store([tap, *program with taps]) -> final."""
     install_monitor()
     ctx = Ctx(monitor=monitor, fail=fail)
     ctx.notaps = notaps
+    if extra:
+        ctx.extra.update(extra)
 
     def mk(subject):
         return subject.pipe(rs.state.with_memory_store(pipeline=build(program, ctx, 'mux', 'P')))
